@@ -190,11 +190,15 @@ func addExtras(env *sbx.Env, g *histgen.Repo, r *rand.Rand, idx int) *extras {
 		}
 	}
 	// a nested .gitattributes whose basename pattern Git applies at any depth below its directory
-	if idx%8 == 5 {
+	// (idx%8 == 7: flavor odd-then-cleaned, only the deep file is added, so that it is HEAD's only pointer problem)
+	if idx%8 == 5 || idx%8 == 7 {
 		os.MkdirAll(filepath.Join(dir, "n", "sub"), 0o755)
 		os.WriteFile(filepath.Join(dir, "n", ".gitattributes"), []byte("*.raw "+"filter=lfs diff=lfs merge=lfs -text\n"), 0o644)
 		mustOK(env.PlainGit(dir, "add", "-f", "--", "n/.gitattributes"))
 		for _, rel := range []string{"n/near.raw", "n/sub/deep.raw", "deepest/n/x.raw"} {
+			if idx%8 == 7 && rel == "n/near.raw" {
+				continue
+			}
 			p := filepath.Join(dir, rel)
 			os.MkdirAll(filepath.Dir(p), 0o755)
 			os.WriteFile(p, oddContent(r, "raw-small", targets[0]), 0o644)
@@ -259,63 +263,89 @@ func localObjects(gitDir string) []string {
 // applyPlan damages a seeded subset of the local objects (always by replacing
 // or deleting the file). prob = per-object probability; prefer lists oids that
 // are damaged with a higher probability (objects of the checked revisions).
-func applyPlan(r *rand.Rand, gitDir string, contents map[string][]byte, prob float64, prefer map[string]bool) []damage {
+// referenced = oids named by some pointer of the history or the index: those are
+// drawn from the plan's PRNG in sorted order. Other files in the store (Git may
+// run the clean filter on a stat-dirty raw file, which leaves an unreferenced
+// object behind, depending on timing) get their own PRNG derived from the oid, so
+// that the plan for the referenced objects is a function of the seed alone.
+func applyPlan(r *rand.Rand, gitDir string, contents map[string][]byte, prob float64, prefer, referenced map[string]bool) []damage {
 	var out []damage
-	objs := localObjects(gitDir)
-	for _, oid := range objs {
-		p := prob
-		if prefer[oid] && p > 0 {
-			p = p*1.5 + 0.1
+	var refd, unref []string
+	for _, oid := range localObjects(gitDir) {
+		if referenced[oid] {
+			refd = append(refd, oid)
+		} else {
+			unref = append(unref, oid)
 		}
-		if r.Float64() >= p {
-			continue
-		}
-		path := sbx.ObjectPath(gitDir, oid)
-		orig, err := os.ReadFile(path)
-		if err != nil {
-			panic(err)
-		}
-		fi, _ := os.Stat(path)
-		kind := damageKinds[r.Intn(len(damageKinds))]
-		var nb []byte
-		switch kind {
-		case "deletion":
-			if err := os.Remove(path); err != nil {
-				panic(err)
+	}
+	salt := r.Int63()
+	for _, oid := range append(append([]string{}, refd...), unref...) {
+		rr := r
+		if !referenced[oid] {
+			var h int64
+			for _, c := range []byte(oid[:15]) {
+				h = h*131 + int64(c)
 			}
-			out = append(out, damage{Oid: oid, Kind: kind})
-			continue
-		case "truncation":
-			nb = append([]byte{}, orig[:r.Intn(len(orig))]...)
-		case "extension":
-			extra := make([]byte, 1+r.Intn(16))
-			r.Read(extra)
-			nb = append(append([]byte{}, orig...), extra...)
-		case "replacement":
-			var others []string
-			for _, o := range objs {
-				if o != oid && len(contents[o]) > 0 {
-					others = append(others, o)
-				}
-			}
-			if len(others) > 0 {
-				nb = append([]byte{}, contents[others[r.Intn(len(others))]]...)
-				break
-			}
-			kind = "bitflip"
-			fallthrough
-		case "bitflip":
-			nb = append([]byte{}, orig...)
-			i := r.Intn(len(nb))
-			nb[i] ^= 1 << uint(r.Intn(8))
+			rr = rand.New(rand.NewSource(salt ^ h))
 		}
-		if sbx.Sha256Hex(nb) == oid {
-			panic("corruption produced identical content")
+		if d, ok := damageOne(rr, gitDir, oid, contents, prob, prefer, refd); ok {
+			out = append(out, d)
 		}
-		if err := sbx.WriteReplace(path, nb, fi.Mode().Perm()); err != nil {
-			panic(err)
-		}
-		out = append(out, damage{Oid: oid, Kind: kind, NewSha: sbx.Sha256Hex(nb), NewLen: len(nb)})
 	}
 	return out
+}
+
+func damageOne(r *rand.Rand, gitDir, oid string, contents map[string][]byte, prob float64, prefer map[string]bool, objs []string) (damage, bool) {
+	p := prob
+	if prefer[oid] && p > 0 {
+		p = p*1.5 + 0.1
+	}
+	if r.Float64() >= p {
+		return damage{}, false
+	}
+	path := sbx.ObjectPath(gitDir, oid)
+	orig, err := os.ReadFile(path)
+	if err != nil {
+		panic(err)
+	}
+	fi, _ := os.Stat(path)
+	kind := damageKinds[r.Intn(len(damageKinds))]
+	var nb []byte
+	switch kind {
+	case "deletion":
+		if err := os.Remove(path); err != nil {
+			panic(err)
+		}
+		return damage{Oid: oid, Kind: kind}, true
+	case "truncation":
+		nb = append([]byte{}, orig[:r.Intn(len(orig))]...)
+	case "extension":
+		extra := make([]byte, 1+r.Intn(16))
+		r.Read(extra)
+		nb = append(append([]byte{}, orig...), extra...)
+	case "replacement":
+		var others []string
+		for _, o := range objs {
+			if o != oid && len(contents[o]) > 0 {
+				others = append(others, o)
+			}
+		}
+		if len(others) > 0 {
+			nb = append([]byte{}, contents[others[r.Intn(len(others))]]...)
+			break
+		}
+		kind = "bitflip"
+		fallthrough
+	case "bitflip":
+		nb = append([]byte{}, orig...)
+		i := r.Intn(len(nb))
+		nb[i] ^= 1 << uint(r.Intn(8))
+	}
+	if sbx.Sha256Hex(nb) == oid {
+		panic("corruption produced identical content")
+	}
+	if err := sbx.WriteReplace(path, nb, fi.Mode().Perm()); err != nil {
+		panic(err)
+	}
+	return damage{Oid: oid, Kind: kind, NewSha: sbx.Sha256Hex(nb), NewLen: len(nb)}, true
 }
